@@ -68,10 +68,49 @@ def int_scene(rng, K):
     return frames
 
 
+SMALL_TURNS = [(63 / 65, 16 / 65), (63 / 65, -16 / 65), (255 / 257, 32 / 257), (255 / 257, -32 / 257), (4095 / 4097, 128 / 4097), (4095 / 4097, -128 / 4097)]
+
+
+def straddle(frames, rng):
+    """NUMERIC EDGE: in the MAP frame every ground truth heads along -x exactly (yaw = +-pi: ego yaw + object yaw = pi) and its estimate is turned
+    by +-14 / +-7 / +-1.8 degrees, so the pair straddles the +-pi cut of the yaw angle in the map rendering but not in the ego rendering (where
+    both yaws are pi - ego yaw and a little more or less)"""
+    for fr in frames:
+        ec, es = fr["ego"]["cs"]
+        by_uuid = {}
+        for g in fr["gts"]:
+            g["yaw_cs"] = (-ec, es)
+            by_uuid["t" + g["uuid"][1:]] = g
+        for e in fr["ests"]:
+            g = by_uuid.get(e["uuid"])
+            if g is not None:
+                (gc, gs), (dc, ds) = g["yaw_cs"], rng.choice(SMALL_TURNS)
+                e["yaw_cs"] = (gc * dc - gs * ds, gs * dc + gc * ds)
+
+
+def straddles_in_map_only(fr):
+    """number of (estimate, its ground truth) pairs whose yaws are less than pi apart as numbers in the ego frame but more than pi apart in the map frame"""
+    def wrap(x):
+        return math.atan2(math.sin(x), math.cos(x))
+
+    ey = math.atan2(fr["ego"]["cs"][1], fr["ego"]["cs"][0])
+    G = {"t" + g["uuid"][1:]: g for g in fr["gts"]}
+    n = 0
+    for e in fr["ests"]:
+        g = G.get(e["uuid"])
+        if g is not None and "yaw_cs" in e and "yaw_cs" in g:
+            a, b = math.atan2(e["yaw_cs"][1], e["yaw_cs"][0]), math.atan2(g["yaw_cs"][1], g["yaw_cs"][0])
+            n += abs(a - b) <= math.pi and abs(wrap(a + ey) - wrap(b + ey)) > math.pi
+    return n
+
+
 def run_scene(case, frame):
     mgr = MC.make_manager(case["task"], frame, tag="c07" + frame, **dict(CFG, **MGR[case.get("mgr", 0)]))
     out = []
     prev = None
+    # ACCUMULATION: half of the scenes hand ONE CriticalObjectFilterConfig / PerceptionPassFailConfig instance to every frame (as an application that
+    # builds its configs once does) while the ego moves from frame to frame; the others build fresh instances per frame
+    shared = (MC.critical_cfg(mgr, CRIT[case["crit"]]), MC.passfail_cfg(mgr, PF[case["pf"]])) if case.get("shared_cfg") else None
     for fr in case["frames"]:
         if case.get("derived_frames") and prev is not None:
             gt = MC.make_gt_frame(dict(fr, _prev_gt_frame=prev), frame, tf_mode="derived")
@@ -79,7 +118,8 @@ def run_scene(case, frame):
             gt = MC.make_gt_frame(fr, frame, tf_mode=case.get("ego_tf", "pose"))
         prev = gt
         ests = MC.make_estimates(fr, frame)
-        r = mgr.add_frame_result(fr["t"], gt, ests, MC.critical_cfg(mgr, CRIT[case["crit"]]), MC.passfail_cfg(mgr, PF[case["pf"]]))
+        cc, pc = shared if shared is not None else (MC.critical_cfg(mgr, CRIT[case["crit"]]), MC.passfail_cfg(mgr, PF[case["pf"]]))
+        r = mgr.add_frame_result(fr["t"], gt, ests, cc, pc)
         out.append((r, gt))
     return mgr, out
 
@@ -177,6 +217,9 @@ class RenderingCorr(Corr):
         for ci in range(n):
             task = "tracking" if ci % 3 == 2 else "detection"
             K = rng.randint(1, 3) if task == "detection" else rng.randint(2, 4)
+            shared_cfg = ci % 2 == 0 or ci % 8 == 1        # (ci % 8 == 1: combined with frames derived by deepcopy + in-place update)
+            if shared_cfg and ci % 4 == 0:
+                K = max(K, 3)                # >= 3 frames through one manager and one pair of config instances, the ego moving in between
             fp_gt = rng.random() < 0.4       # scenes with FP-labelled ground truth (TN / matched-FP bookkeeping in both renderings)
             frames = [MC.gen_frame(rng, i, uuid_prefix="g", fp_gt_prob=0.25 if fp_gt else 0.0) for i in range(K)]
             if task == "tracking":  # persistent tracks: same uuids across frames, small motion
@@ -192,6 +235,8 @@ class RenderingCorr(Corr):
             else:
                 MC.assign_confidences(frames, rng, distinct=True)
                 jitter(frames)
+            if ci % 8 == 7:
+                straddle(frames, rng)
             far = ci % 8 == 3
             if far:      # map coordinates of the size real maps have (1e4 .. 1e5 m), still on the k/8 lattice
                 for fr in frames:
@@ -207,7 +252,7 @@ class RenderingCorr(Corr):
             # later frames derived from the previous (already evaluated) frame object by deepcopy + in-place update of its transforms
             out.append({"task": task, "frames": frames, "crit": crit, "pf": rng.randrange(len(PF)), "ego_tf": ego_tf,
                         "int_positions": ci % 8 == 5, "derived_frames": ego_tf == "pose" and ci % 2 == 1 and K >= 2,
-                        "mgr": mgr, "fp_gt": fp_gt and ci % 8 != 5, "far_map": far and ci % 8 != 5})
+                        "mgr": mgr, "fp_gt": fp_gt and ci % 8 != 5, "far_map": far and ci % 8 != 5, "shared_cfg": shared_cfg})
         return out
 
     def run_impl(self, case):
@@ -284,7 +329,9 @@ class RenderingCorr(Corr):
              "ego_rendering_transforms": {"pose": 0, "empty": 0, "none": 0}, "scenes_with_int_typed_map_positions": 0, "scenes_with_frames_derived_by_deepcopy": 0,
              "manager_config": {}, "scenes_where_only_the_manager_level_filter_acts": 0, "targeted_gt_removed_by_the_manager_level_filter_alone": 0,
              "estimates_removed_or_unmatched_under_the_manager_level_filter_alone": 0,
-             "scenes_with_fp_labelled_gt": 0, "tn": 0, "scenes_with_map_coordinates_around_1e5": 0}
+             "scenes_with_fp_labelled_gt": 0, "tn": 0, "scenes_with_map_coordinates_around_1e5": 0,
+             "scenes_with_one_critical_and_passfail_config_instance_for_all_frames": 0, "of_those_with_3_or_more_frames": 0,
+             "pairs_straddling_the_pi_cut_in_the_map_frame_only": 0, "of_those_turned_by_less_than_15_degrees": 0}
         for c, o in zip(cases, obs):
             if not isinstance(o, dict) or "ego" not in o:
                 continue
@@ -298,6 +345,13 @@ class RenderingCorr(Corr):
             d["scenes_where_only_the_manager_level_filter_acts"] += only_mgr
             d["scenes_with_fp_labelled_gt"] += any(g["label"] == "false_positive" for fr in c["frames"] for g in fr["gts"])
             d["scenes_with_map_coordinates_around_1e5"] += bool(c.get("far_map"))
+            d["scenes_with_one_critical_and_passfail_config_instance_for_all_frames"] += bool(c.get("shared_cfg")) and len(c["frames"]) >= 2
+            d["of_those_with_3_or_more_frames"] += bool(c.get("shared_cfg")) and len(c["frames"]) >= 3
+            if not c.get("int_positions"):
+                n_st = sum(straddles_in_map_only(fr) for fr in c["frames"])
+                d["pairs_straddling_the_pi_cut_in_the_map_frame_only"] += n_st
+                if any(tuple(e.get("yaw_cs", ())) not in MC.CIRCLE for fr in c["frames"] for e in fr["ests"]):
+                    d["of_those_turned_by_less_than_15_degrees"] += n_st
             for fr, f in zip(c["frames"], o["ego"]):
                 d["tn"] += len(f["tn"])
                 if only_mgr:
@@ -337,6 +391,8 @@ class C07(Prop):
             "pass/fail thresholds, detection and tracking (persistent tracks with identity swaps); the ego-frame rendering carries the pose / an empty transform list / no transforms in turn; every 8th scene has integer-typed map-frame positions with a fractional ego pose; the MANAGER's own filter configuration rotates over wide x/y (only the critical filter binds), binding max_x/max_y, "
             "binding max/min distance, binding x + max_matchable_radii, binding y + target_uuids -- 60% of those under a critical filter that removes nothing, so that "
             "PerceptionEvaluationManager._filter_objects alone decides; 40% of the scenes carry FP-labelled ground truth (TN lists compared); every 8th scene has map coordinates around (89000, 42000, 40) m; "
+            "every 2nd scene hands ONE CriticalObjectFilterConfig / PerceptionPassFailConfig instance to all its frames (every 4th scene has >= 3 frames then) while the ego pose changes from frame to frame; "
+            "every 8th scene is a straddle scene: each ground truth heads along -x of the MAP (ego yaw + object yaw = pi) and its estimate is turned by +-14 / +-7 / +-1.8 degrees, so the pair lies across the +-pi cut in the map rendering only (APH weight, heading error); "
             "non-trivial = at least two object results")
     assumptions = ["decisions at least 1e-5 away from their boundaries by construction of the generator", "shapely's intersection area agrees with the exact evaluator within 1e-9 (C06's correspondence)"]
     not_proved = [                  "roll/pitch in the ego pose for box-level facts (positions only)"]
